@@ -7,7 +7,8 @@ from .. import core, eqv, values
 
 ID = 'C10'
 LEVEL = 'exploration'
-RULE = ('case = (container tree over list/tuple/set/frozenset/dict with lengths 0..6, N in {1..maxlen+1, None, 10^6, '
+RULE = ('case = (container tree over list/tuple/set/frozenset/dict with lengths 0..6, optionally reached through '
+        'pretty_call objects with one or several positional/keyword arguments, N in {1..maxlen+1, None, 10^6, '
         'default}, width, indent). Exhaustive: shapes built from lengths {0,1,2,3} nested to depth 2 over all five '
         'container kinds x every N in 1..4 plus None x 3 widths; long flat containers of 999/1000/1001/1200 elements at '
         'the default limit; random: Hypothesis trees. Oracle: eval(output) type-strictly equals the reference '
@@ -74,6 +75,11 @@ def fixed_cases():
     yield {'v': ['list', [['int', 1], ['int', 2], ['dict', [[['int', 1], ['int', 2]]]]]], 'n': None, 'width': 79, 'indent': 4}   # D8
     yield {'v': ['dict', [[['tuple', [['int', 1], ['int', 2], ['int', 3]]], ['list', [['int', 1], ['int', 2], ['int', 3]]]]]],
            'n': 2, 'width': 20, 'indent': 2}
+    inner = ['list', [['int', 1], ['int', 2], ['int', 3], ['int', 4]]]
+    for n in (1, 3, None):
+        yield {'v': ['call', 'box', [inner, ['dict', [[['int', 1], inner], [['int', 2], ['int', 0]]]]], [['kw', ['tuple', [inner, ['int', 5], ['int', 6]]]]]],
+               'n': n, 'width': 40, 'indent': 4}
+        yield {'v': ['list', [['call', 'alt', [inner], []], ['call', 'box', [['int', 0], inner], []]]], 'n': n, 'width': 40, 'indent': 4}
 
 
 def strategy(tier):
@@ -90,7 +96,17 @@ def strategy(tier):
             st.lists(hashable, max_size=6).map(lambda xs: ['fset', xs]),
             st.lists(st.tuples(hashable, ch).map(list), max_size=6).map(lambda kv: ['dict', kv]),
         )
-    tree = st.recursive(leaf, ext, max_leaves=30).filter(lambda r: r[0] in ('list', 'tuple', 'set', 'fset', 'dict'))
+    def ext_calls(ch):
+        # containers reached through call-style printers (one or several arguments, keyword arguments)
+        return st.one_of(
+            ext(ch),
+            st.tuples(st.sampled_from(['box', 'alt']), st.lists(ch, max_size=3),
+                      st.lists(st.tuples(st.sampled_from(['a', 'b']), ch).map(list), max_size=2, unique_by=lambda p: p[0])).map(
+                lambda p: ['call', p[0], p[1], p[2]]),
+        )
+    plain = st.recursive(leaf, ext, max_leaves=30).filter(lambda r: r[0] in ('list', 'tuple', 'set', 'fset', 'dict'))
+    with_calls = st.recursive(leaf, ext_calls, max_leaves=20).filter(lambda r: r[0] in ('list', 'tuple', 'dict', 'call'))
+    tree = st.one_of(plain, plain, with_calls)
     return st.fixed_dictionaries({
         'v': tree,
         'n': st.one_of(st.integers(1, 7), st.integers(1, 3), st.none(), st.just(10 ** 6)),
@@ -101,7 +117,12 @@ def strategy(tier):
 
 def truncate(v, N, counts, level=0, trunc_levels=None):
     """reference truncation; appends len-N for every reached container longer than N"""
+    from .. import vtypes
     t = type(v)
+    if isinstance(v, vtypes.Box):
+        # a call-style object is not a container: its arguments are all shown, each truncated on its own
+        return t(*[truncate(a, N, counts, level + 1, trunc_levels) for a in v.args],
+                 **{k: truncate(a, N, counts, level + 1, trunc_levels) for k, a in v.kwargs.items()})
     if t in (list, tuple, set, frozenset):
         items = list(v)
         if len(items) > N:
@@ -165,11 +186,13 @@ def oracle(case):
         return core.viol('warning', p.warnings[0][:400])
     counts, levels = [], []
     expected = truncate(v, N, counts, 0, levels)
+    from .. import vtypes
+    from .c17 import deep_same
     try:
-        back = values.evaluate(p.text)
+        back = values.evaluate(p.text, vtypes.env())
     except Exception as e:
         return core.viol('not-evaluable', '%r\n%s' % (e, p.text[:500]))
-    if not eqv.same(back, expected, 'keep'):
+    if not deep_same(expected, back, True):
         return core.viol('truncated-value-differs', 'N=%r expected %r\ngot %r' % (n, expected, back) if len(p.text) < 600 else 'N=%r long value differs' % (n,))
     try:
         got, nwords = notices(p.text)
